@@ -27,6 +27,7 @@ import (
 type Value struct {
 	comp Compound
 	list []*Value
+	elem byte // element tag of a decoded list (used when the list is empty)
 	data []byte
 	tag  byte // nbt.Tag*
 }
